@@ -106,6 +106,16 @@ type contMeta struct {
 // instances of all nodes consecutively in map order).
 func (h *Hub) SetOpNorm(op int, norm bool) { h.mu.Lock(); h.Op = op; h.norm = norm; h.mu.Unlock() }
 
+// CanonSeq is the canonical index of the instance created with ERU_WORKLOAD_SEQ=seq on node under op tag op.
+func (h *Hub) CanonSeq(op int, node string, seq int) int {
+	h.mu.Lock()
+	defer h.mu.Unlock()
+	if b, ok := h.minSeq[fmt.Sprintf("%d/%s", op, node)]; ok {
+		return seq - b
+	}
+	return seq
+}
+
 // Endpoint returns the endpoint of node in this hub.
 func (h *Hub) Endpoint(node string) string { return EndpointPrefix + h.tag + "/" + node }
 
